@@ -74,7 +74,7 @@ def run_kernel(cx, res, fname, extra_args=None, exits=(), loop_mode="cut", io=Tr
         st.notes["idx"] = z3.BitVec("idxh%d_%d" % (bb, len(st.notes["in"])), 64)
 
     def havoc(e, st, fr, bb):
-        rec = {"idx": st.notes["idx"], "locals": dict((k, v) for k, v in fr.locals.items() if isinstance(v, (Int, BoolV)))}
+        rec = {"idx": st.notes["idx"], "locals": dict((k, v) for k, v in fr.locals.items() if isinstance(v, (Int, BoolV, Agg)))}
         st.notes["in"] = st.notes["in"] + ((bb, rec),)
         st.notes["scratch_at_header"] = len(st.notes["scratch"])
         return [z3.ULT(st.notes["idx"], z3.BitVecVal(1 << 40, 64))]
@@ -466,6 +466,173 @@ def claim_elisp_char(cx, res, kf):
     res.vacuity.append(("elisp hex steps", steps > 0 and ends > 0))
 
 
+def hexval(b):
+    return z3.If(z3.And(z3.UGE(b, bv(48)), z3.ULE(b, bv(57))), b - bv(48),
+                 z3.If(z3.And(z3.UGE(b, bv(97)), z3.ULE(b, bv(102))), b - bv(87),
+                       z3.If(z3.And(z3.UGE(b, bv(65)), z3.ULE(b, bv(70))), b - bv(55), bv(255))))
+
+
+def claim_digit_loops(cx, res, kf):
+    """The digit accumulators behind the escapes the printers emit: octal (Emacs byte strings), fixed-width hex u / U escapes
+    (Emacs control characters), the hex character syntax of the default dialect, with their base cases; base cases of the
+    two hex loops whose steps are claimed elsewhere."""
+    from . import confirm as CF
+    onm = CF.confirm(("strings", "chars"), res)
+    u32 = lambda v: z3.BitVecVal(v, 32)  # noqa
+    LIM = u32(1 << 24)
+    # ---- octal: n0 = initial - '0'; n' = n*8+d for d in 0..7 below 2^24; stops before the first non-octal byte / EOF
+    eng, rd, fn, info, terms = run_kernel(cx, res, "decode_elisp_octal_escape", extra_args=lambda e: [e.sym_int("u8", "initial")])
+    nloc = fn.local_by_debug("n")
+    ini = None
+    for a in fn.args:
+        if fn.local_ty.get(a, "").strip() == "u8":
+            ini = a
+    done = set()
+    cnt = {"step": 0, "end": 0}
+    for t in terms:
+        st = t.state
+        pc = list(st.pc)
+        if t.kind == "PANIC":
+            continue    # c03_kernel_totality
+        if not st.notes["in"]:
+            continue
+        a0 = st.notes["arrivals"][0][1]
+        init_v = a0["locals"][ini].e
+        K.base_case(res, st, 0, done, lambda a: z3.And(a["locals"][nloc].e == z3.ZeroExt(24, init_v - bv(48)), a["idx"] == info["idx0"])
+                    if nloc in a["locals"] else None, "octal escape: the accumulator does not start with the first digit's value", onm)
+        hb, rec = st.notes["in"][-1]
+        idx = rec["idx"]
+        b = rd.at(idx)
+        eof = z3.UGE(idx, rd.len)
+        ioerr = idx == rd.err_at
+        nin = rec["locals"][nloc].e
+        isoct = z3.And(z3.Not(eof), z3.UGE(b, bv(48)), z3.ULE(b, bv(55)))
+        if t.kind == "LOOP_BACK":
+            cnt["step"] += 1
+            nout = st.frames[-1].locals[nloc].e
+            res.must_be_unsat(pc + [z3.Not(z3.And(z3.Not(ioerr), isoct, z3.ULT(nin, LIM), nout == nin * 8 + z3.ZeroExt(24, b - bv(48)),
+                                                  st.notes["idx"] == idx + 1))], "octal escape digit step is not n*8+d (digits 0-7, 24-bit guard)", onm)
+        elif t.kind == "RETURN":
+            kind, payload = K.classify_return(eng, t)
+            if kind == "ok":
+                cnt["end"] += 1
+                res.must_be_unsat(pc + [z3.Not(z3.And(z3.Not(ioerr), z3.Not(isoct), payload.e == nin, st.notes["idx"] == idx))],
+                                  "octal escape ends on an octal digit / consumes the following byte / returns another value", onm)
+    res.vacuity.append(("octal loop steps and ends", cnt["step"] > 0 and cnt["end"] > 0))
+    # ---- \u / \U: exactly `count` hex digits
+    eng, rd, fn, info, terms = run_kernel(cx, res, "decode_elisp_uni_escape", extra_args=lambda e: [e.sym_int("u8", "count")])
+    nloc = fn.local_by_debug("n")
+    cl = [a for a in fn.args if fn.local_ty.get(a, "").strip() == "u8"][0]
+    done = set()
+    cnt = {"step": 0, "end": 0}
+
+    iter_l = fn.local_by_debug("iter")
+
+    def range_of(locals_):
+        v = locals_.get(iter_l)
+        if isinstance(v, Agg) and len(v.fields) == 2 and all(isinstance(f, Int) for f in v.fields):
+            return iter_l, v
+        return None, None
+    for t in terms:
+        st = t.state
+        pc = list(st.pc)
+        if t.kind == "PANIC" or not st.notes["in"]:
+            continue
+        a0 = st.notes["arrivals"][0][1]
+        count = a0["locals"][cl].e
+        rk, r0 = range_of(a0["locals"])
+        if rk is None:
+            res.violations.append({"what": "\\u escape: no digit counter found", "replayed": None})
+            break
+        K.base_case(res, st, 0, done, lambda a: z3.And(a["locals"][nloc].e == 0, a["locals"][rk].fields[0].e == 0, a["locals"][rk].fields[1].e == count,
+                                                        a["idx"] == info["idx0"]) if nloc in a["locals"] else None,
+                    "\\u escape: does not start with n = 0 and `count` digits to go", onm)
+        hb, rec = st.notes["in"][-1]
+        idx = rec["idx"]
+        b = rd.at(idx)
+        eof = z3.UGE(idx, rd.len)
+        ioerr = idx == rd.err_at
+        nin = rec["locals"][nloc].e
+        fr0 = st.frames[0] if st.frames else None
+        # the loop state of the counter at the header: taken from the frame's havocked copy recorded in `in`
+        rng = rec["locals"].get(rk)
+        dv = hexval(b)
+        if t.kind == "LOOP_BACK":
+            cnt["step"] += 1
+            fr = st.frames[-1]
+            nout = fr.locals[nloc].e
+            res.must_be_unsat(pc + [z3.Not(z3.And(z3.Not(ioerr), z3.Not(eof), dv != bv(255), z3.ULT(nin, LIM),
+                                                  nout == nin * 16 + z3.ZeroExt(24, dv), st.notes["idx"] == idx + 1))],
+                              "\\u escape digit step is not n*16+d on a hex digit", onm)
+            if rng is not None:
+                r2 = fr.locals[rk]
+                res.must_be_unsat(pc + [z3.Not(z3.And(z3.ULT(rng.fields[0].e, rng.fields[1].e), r2.fields[0].e == rng.fields[0].e + 1,
+                                                      r2.fields[1].e == rng.fields[1].e))], "\\u escape: a digit is not counted exactly once", onm)
+        elif t.kind == "RETURN":
+            kind, payload = K.classify_return(eng, t)
+            if kind == "ok":
+                cnt["end"] += 1
+                if rng is not None:
+                    # with the base case (0 of count) and the step (+1 while below count) the counter never passes count,
+                    # so `not below` means exactly count digits were read
+                    res.must_be_unsat(pc + [z3.Not(z3.And(z3.Not(z3.ULT(rng.fields[0].e, rng.fields[1].e)), payload.e == nin, st.notes["idx"] == idx))],
+                                      "\\u escape returns before / after exactly `count` digits or another value", onm)
+    res.vacuity.append(("\\u loop steps and ends", cnt["step"] > 0 and cnt["end"] > 0))
+    # ---- #\x<hex>: n0 = 0, first = true; ends at a delimiter / EOF (not consumed) with None iff no digit was read
+    eng, rd, fn, info, terms = run_kernel(cx, res, "decode_r6rs_char_hex_escape")
+    nloc, floc = fn.local_by_debug("n"), fn.local_by_debug("first")
+    DELIM = cx.statics["DELIMITER"]["bytes"]
+    done = set()
+    cnt = {"step": 0, "none": 0, "some": 0}
+    for t in terms:
+        st = t.state
+        pc = list(st.pc)
+        if t.kind == "PANIC" or not st.notes["in"]:
+            continue
+        K.base_case(res, st, 0, done, lambda a: z3.And(a["locals"][nloc].e == 0, a["locals"][floc].e, a["idx"] == info["idx0"])
+                    if nloc in a["locals"] and floc in a["locals"] else None, "#\\x: does not start with n = 0, nothing read", onm)
+        hb, rec = st.notes["in"][-1]
+        idx = rec["idx"]
+        b = rd.at(idx)
+        eof = z3.UGE(idx, rd.len)
+        ioerr = idx == rd.err_at
+        nin, fin = rec["locals"][nloc].e, rec["locals"][floc].e
+        delim = z3.Or(eof, *[b == bv(c) for c in DELIM])
+        dv = hexval(b)
+        if t.kind == "LOOP_BACK":
+            cnt["step"] += 1
+            fr = st.frames[-1]
+            res.must_be_unsat(pc + [z3.Not(z3.And(z3.Not(ioerr), z3.Not(delim), dv != bv(255), z3.ULT(nin, LIM),
+                                                  fr.locals[nloc].e == nin * 16 + z3.ZeroExt(24, dv), z3.Not(fr.locals[floc].e),
+                                                  st.notes["idx"] == idx + 1))], "#\\x digit step is not n*16+d / does not record that a digit was read", onm)
+        elif t.kind == "RETURN":
+            kind, payload = K.classify_return(eng, t)
+            if kind == "ok":
+                d = K.concrete(payload.discr)
+                if d == 0:
+                    cnt["none"] += 1
+                    res.must_be_unsat(pc + [z3.Not(z3.And(z3.Not(ioerr), delim, fin, st.notes["idx"] == idx))], "#\\x: `no digits` reported after a digit / not at a delimiter", onm)
+                else:
+                    cnt["some"] += 1
+                    res.must_be_unsat(pc + [z3.Not(z3.And(z3.Not(ioerr), delim, z3.Not(fin), payload.variants[1][0].e == nin, st.notes["idx"] == idx))],
+                                      "#\\x: value returned is not the accumulated one / the delimiter is consumed", onm)
+    res.vacuity.append(("#\\x loop steps and both ends", cnt["step"] > 0 and cnt["none"] > 0 and cnt["some"] > 0))
+    # ---- base cases of the hex loops whose steps are claimed in c01_r6rs_escape / c02_elisp_char
+    for fname in ("decode_r6rs_hex_escape", "decode_elisp_hex_escape"):
+        eng, rd, fn, info, terms = run_kernel(cx, res, fname)
+        nloc = fn.local_by_debug("n")
+        done = set()
+        k = 0
+        for t in terms:
+            st = t.state
+            if not st.notes.get("in"):
+                continue
+            k += 1
+            K.base_case(res, st, 0, done, lambda a: z3.And(a["locals"][nloc].e == 0, a["idx"] == info["idx0"]) if nloc in a["locals"] else None,
+                        "%s: the accumulator does not start at 0 / input is consumed before the first digit" % fname, onm)
+        res.vacuity.append(("%s reaches its loop" % fname, k > 0))
+
+
 def claim_escape_composition(cx, res, kf):
     """The escape spellings the printers emit (verified against the code by c07_escape_emissions / c07_char_emissions) are
     read back as the same byte / character by the escape semantics verified by c01_r6rs_escape / c02_elisp_escape /
@@ -508,6 +675,11 @@ CLAIMS += [
           "`?c` reads as c, `?\\c` for c in ()[]\;|'`#., reads as c, `?\\x<hex>` as that (valid) scalar value; the hex loop "
           "accumulates n*16+d and stops before the first non-hex byte",
           "every initial / lookahead byte; any number of hex digits (loop induction)", configs=("fast",), also=("C13",)),
+    Claim("c02_digit_loops", "C02", "quick", claim_digit_loops,
+          "digit accumulators of `\\NNN` (n0 = first digit, n*8+d, stops before a non-octal byte), `\\uNNNN` / `\\UNNNNNNNN` "
+          "(n0 = 0, exactly `count` hex digits, n*16+d) and `#\\x<hex>` (n0 = 0, n*16+d up to a delimiter / EOF, `no digits` "
+          "reported only if none was read), all under the 24-bit guard; base cases of the two string / character hex loops",
+          "any number of digits (one-step induction with base case)", configs=("fast",), also=("C01", "C13", "C17")),
     Claim("c01_escape_composition", "C01", "quick", claim_escape_composition,
           "what the string printers emit for a byte (spec checked against the printer code) is mapped back to the same byte "
           "by the escape semantics (spec checked against the reader code), for every byte, R6RS and Emacs string syntax",
